@@ -80,9 +80,12 @@ def _object_array(value, shape):
     sequences themselves (xobject arrays, strings, tuples of arguments)."""
     out = np.empty(shape, dtype=object)
     for idx in np.ndindex(*shape):
-        item = value
-        for ii in idx:
-            item = item[ii]
+        if hasattr(value, "_shape"):  # xobject array: takes the full index
+            item = value[idx]
+        else:
+            item = value
+            for ii in idx:
+                item = item[ii]
         out[idx] = item
     return out
 
